@@ -64,3 +64,89 @@ func VerifListenerServe() {
 	}
 	symapi.Reach("end")
 }
+
+// VerifHandOffBackpressure (C19, threads): a matched connection is never shed because the
+// service has not accepted yet: with the service's queue full (capacity 1 here instead of
+// 1024 - the code does not depend on the number) further matched connections wait; once the
+// service accepts, every one of them arrives, none was closed.
+func VerifHandOffBackpressure() {
+	m := &Listener{bufferSize: 1, errorHandler: func(error) bool { return true }, closing: make(chan struct{}),
+		readTimeout: 2 * time.Second, settingsHandler: func(_ net.Conn) {}}
+	rtspL := m.Match(MatchPrefix(verifRtspPrefixes...)).(muxListener)
+	srcs := []*verifSrc{{data: []byte("OPTIONS * RTSP/1.0\r\n")}, {data: []byte("DESCRIBE rtsp://h/a RTSP/1.0\r\n")}, {data: []byte("PLAY rtsp://h/a RTSP/1.0\r\n")}}
+	var wg sync.WaitGroup
+	wg.Add(len(srcs))
+	for _, s := range srcs {
+		s := s
+		symapi.Go(func() { m.serve(s, m.closing, &wg) })
+	}
+	symapi.Quiesce() // the service is busy: nothing accepted yet
+	for _, s := range srcs {
+		symapi.Assert(s.closed == 0, "pending-matched-connection-not-closed-while-the-service-is-busy")
+	}
+	got := 0
+	for range srcs {
+		c, err := rtspL.Accept()
+		symapi.Assert(err == nil && c != nil, "service-accepts-every-pending-connection")
+		got++
+	}
+	symapi.Quiesce()
+	for _, s := range srcs {
+		symapi.Assert(s.closed == 0, "accepted-connection-not-closed-by-the-multiplexer")
+	}
+	symapi.Assert(got == len(srcs), "all-arrive")
+	symapi.Reach("end")
+}
+
+// VerifRoot is a scripted root listener for harnesses of packages that build on Listener
+// (service): Accept yields the scripted connections in order, then blocks until closed.
+type VerifRoot struct {
+	Heads  []string
+	Srcs   []*verifSrc
+	next   int
+	Closed bool
+	wake   chan struct{}
+}
+
+type verifClosedErr struct{}
+
+func (verifClosedErr) Error() string   { return "use of closed network connection" }
+func (verifClosedErr) Temporary() bool { return false }
+func (verifClosedErr) Timeout() bool   { return false }
+
+func (r *VerifRoot) Accept() (net.Conn, error) {
+	if r.Closed {
+		return nil, verifClosedErr{}
+	}
+	if r.next < len(r.Heads) {
+		s := &verifSrc{data: []byte(r.Heads[r.next])}
+		r.Srcs = append(r.Srcs, s)
+		r.next++
+		return s, nil
+	}
+	<-r.wake
+	return nil, verifClosedErr{}
+}
+func (r *VerifRoot) Close() error {
+	if !r.Closed {
+		r.Closed = true
+		close(r.wake)
+	}
+	return nil
+}
+func (r *VerifRoot) Addr() net.Addr { return nil }
+
+// VerifClosedCount reports how often the i-th accepted connection was closed.
+func (r *VerifRoot) VerifClosedCount(i int) int {
+	if i >= len(r.Srcs) {
+		return -1
+	}
+	return r.Srcs[i].closed
+}
+
+// VerifNewMux is New without net.Listen: the multiplexer over a given root listener.
+func VerifNewMux(heads ...string) (*Listener, *VerifRoot) {
+	root := &VerifRoot{Heads: heads, wake: make(chan struct{})}
+	return &Listener{root: root, bufferSize: 1024, errorHandler: func(_ error) bool { return true },
+		closing: make(chan struct{}), readTimeout: noTimeout, settingsHandler: func(_ net.Conn) {}}, root
+}
